@@ -401,6 +401,23 @@ Section Main.
     intros HI Hfr. eapply query_finish with (s' := s) (r := Ok ADone); [exact Hfr|reflexivity|exact HI|apply ext_refl|reflexivity|reflexivity].
   Qed.
 
+  (* an entry lookup outside the entries of its unit raises DWARFError after the unit was fetched (and cached) *)
+  Lemma ref_DIEAtOutside s afs u o : Inv F s -> frames_rel F s afs -> valid_op F (DIEAtOutside u o) = true ->
+    refines s afs (DIEAtOutside u o).
+  Proof.
+    intros HI Hfr Hv. cbn [valid_op] in Hv. destruct (unit_at F u) as [ud|] eqn:Hu; [|discriminate].
+    destruct (get_CU_at_ok F WF fuel Hfu s u ud HI Hu) as (s1 & cu & E1 & HI1 & X1 & (c & Hc & Eo)).
+    destruct (cu_facts F WF fuel Hfu _ _ _ HI1 Hc) as (ud' & Hu' & Eh & Ed & _).
+    rewrite Eo in Hu'. assert (ud' = ud) by congruence. subst ud'.
+    destruct (unit_at_in F WF _ _ Hu) as [_ Euo].
+    eapply query_finish with (s' := s1) (r := Err EDwarf); [exact Hfr| |exact HI1|exact X1|reflexivity|reflexivity].
+    assert (Ed' : the_DIE P u o s = (s1, Err EDwarf)).
+    { unfold the_DIE. fold P in E1. rewrite (bind_ok _ _ _ _ _ E1). unfold cu_get_DIE_from_refaddr.
+      rewrite (bind_get_cu _ _ _ _ Hc). rewrite Ed, Eo, Eh.
+      destruct ((ud_die_off ud <=? o) && (o <? u + uh_size (ud_hdr ud))) eqn:Hc2; [exfalso; lia|reflexivity]. }
+    cbn [run_op]. rewrite (bind_err _ _ _ _ _ Ed'). reflexivity.
+  Qed.
+
   (* a unit lookup that raises leaves nothing behind but the cursor: every later query still gets its stateless answer *)
   Lemma ref_CUAtFailing s afs off e c : Inv F s -> frames_rel F s afs -> refines s afs (CUAtFailing off e c).
   Proof.
